@@ -16,6 +16,7 @@ OBS = [('empty_infinite', 'default/makeEmpty contain no point, makeInfinite cont
 
 
 def build(chk):
+    chk.jobs = 10     # every CBMC obligation races 2-3 back ends plus its witness twin: 16 jobs oversubscribe the 16 cores and push the slow float obligations past their timeouts
     e = EngB(chk, 'box', vopts=dict(nvec=120))
     e.variant('exact')
     e.variant('ufar', uf=['add', 'sub', 'div', 'mul'])
@@ -23,13 +24,13 @@ def build(chk):
         for o, desc in OBS:
             flt = p.endswith('f')
             ufv = flt and o == 'size_center_axis'
-            chk.add(e.ob('O1.%s.%s' % (p, o), H, 'h_%s_%s' % (p, o), '%s: %s' % (name, desc), unwind=2 * n + 2, timeout=120, variant='ufar' if ufv else 'exact', defines=('UF_ARITH',) if ufv else (),
+            chk.add(e.ob('O1.%s.%s' % (p, o), H, 'h_%s_%s' % (p, o), '%s: %s' % (name, desc), unwind=2 * n + 2, timeout=400, variant='ufar' if ufv else 'exact', defines=('UF_ARITH',) if ufv else (),
                          bounds='all bit patterns of every component (floats: all finite values)' + ('; representation invariant: canonical empty or min<=max' if o in ('intersects_box', 'extend_pt', 'extend_box') else '')
                                 + ('; integer size/center: bounds within half the type range (no overflow in max-min)' if o == 'size_center_axis' and not flt else ''),
                          backends=('minisat', 'kissat') if not flt else ('kissat', 'minisat', 'cadical')))
     for p, g, n in (('b3i', 'g3i', 3), ('b2i', 'g2i', 2), ('b3f', 'g3f', 3)):
         chk.add(e.ob('O2.%s_equals_generic' % p, H, 'h_%s_equals_generic' % p, 'Vec%d specialisation of Box behaves identically to the generic template (selected through a derived vector type), output for output' % n,
-                     unwind=2 * n + 2, timeout=120, bounds='all bit patterns (floats: all finite values)', backends=('minisat', 'kissat')))
+                     unwind=2 * n + 2, timeout=400, bounds='all bit patterns (floats: all finite values)', backends=('minisat', 'kissat')))
     chk.assumptions += ['one inductive step from an arbitrary box satisfying the representation invariant (canonical empty, or min<=max on every axis) covers extendBy histories of any length; the invariant is re-established by every step',
                         'the generic template is instantiated through a vector type derived from Vec3<T>/Vec2<T> defined in the wrapper TU']
     ex = EngB(chk, 'boxalgo', vopts=dict(nvec=60))
